@@ -484,39 +484,136 @@ func checkC09PS(c *Ctx, m *Module, sl *Slicer) {
 		}
 	}
 	// ---------------------------------------------------------------- V1
-	for _, o := range fsOracles {
-		fn := m.Func(PkgPS, "", o.name)
-		if fn == nil {
-			c.Fatalf("anchor", "oracle %s not found", o.name)
+	// The Fiat–Shamir oracles are found by what they do — a function of package ps that takes several
+	// group elements and whose result is (or is turned by its callers into) a HashToZr challenge —
+	// whatever they are called and however they assemble the transcript.
+	type oracleFn struct {
+		fn     *ssa.Function
+		hashed []ssa.Value // the bytes hashed into the challenge, in fn's frame
+		name   string      // reference name when it is one of the recorded oracles
+	}
+	isHashToZr := func(cl *ssa.Call) bool {
+		if cl.Call.IsInvoke() {
+			return cl.Call.Method.Name() == "HashToZr"
+		}
+		o := calleeObj(&cl.Call)
+		return o != nil && o.Name() == "HashToZr"
+	}
+	psFns := m.PkgFuncs(PkgPS)
+	var oracles []oracleFn
+	for _, fn := range psFns {
+		if fn.Parent() != nil {
 			continue
 		}
-		c.Analysed(FuncName(fn))
-		var writes []*ssa.Call
-		for _, in := range instrsOf(fn) {
-			if cl, ok := in.(*ssa.Call); ok && cl.Call.IsInvoke() && cl.Call.Method.Name() == "Write" {
-				writes = append(writes, cl)
+		nG := 0
+		for _, p := range fn.Params {
+			if isGroupType(p.Type()) {
+				nG++
 			}
 		}
-		// every group-element parameter of the oracle flows into a Write (frozen exclusion by position: the
-		// blinding oracle's last parameter gs, a locally derived public parameter)
+		if nG < 3 {
+			continue
+		}
+		// the challenge (a scalar) or the digest it is made from (bytes) is what the function returns
+		var hashed []ssa.Value
+		res := fn.Signature.Results()
+		if res.Len() != 1 {
+			continue
+		}
+		isZr := false
+		if n := namedOf(res.At(0).Type()); n != nil && n.Obj().Pkg() != nil && n.Obj().Pkg().Path() == PkgMathlib && n.Obj().Name() == "Zr" {
+			isZr = true
+		}
+		if !isZr && !isByteSlice(res.At(0).Type()) {
+			continue
+		}
+		var rets []ssa.Value
+		for _, in := range instrsOf(fn) {
+			if r, ok := in.(*ssa.Return); ok {
+				rets = append(rets, retResult(r, 0))
+			}
+		}
+		if isZr {
+			// the scalar comes out of HashToZr (here or in a helper that finishes the transcript)
+			fromHash := false
+			for _, rv := range rets {
+				if sliceHas(sl.Slice(rv), func(v ssa.Value) bool { cl, ok := v.(*ssa.Call); return ok && isHashToZr(cl) }) {
+					fromHash = true
+				}
+			}
+			if !fromHash {
+				continue
+			}
+		} else {
+			// the digest is returned and every caller hashes it to a scalar
+			calls := staticCallsTo(psFns, fn)
+			all := len(calls) > 0
+			for _, cs := range calls {
+				cv, ok := cs.(*ssa.Call)
+				if !ok {
+					all = false
+					continue
+				}
+				fed := false
+				for _, in := range instrsOf(cs.Parent()) {
+					if h, ok := in.(*ssa.Call); ok && isHashToZr(h) && sl.Slice(h.Call.Args[len(h.Call.Args)-1])[cv] {
+						fed = true
+					}
+				}
+				if !fed {
+					all = false
+				}
+			}
+			if !all {
+				continue
+			}
+		}
+		hashed = rets
+		if len(hashed) == 0 {
+			continue
+		}
+		name := ""
+		for _, o := range fsOracles {
+			if f := m.Func(PkgPS, "", o.name); f == fn {
+				name = o.name
+			}
+		}
+		oracles = append(oracles, oracleFn{fn, hashed, name})
+	}
+	if len(oracles) < 2 {
+		c.Bad(V1, "ps", "Fiat–Shamir oracles", "-", fmt.Sprintf("found %d functions that hash several group elements into a challenge; the blinding proof and the proof of knowledge of a signature need one each", len(oracles)))
+	}
+	for _, orc := range oracles {
+		fn := orc.fn
+		o := fsOracle{name: orc.name}
+		for _, x := range fsOracles {
+			if x.name == orc.name {
+				o = x
+			}
+		}
+		c.Analysed(FuncName(fn))
+		// every group-element parameter of the oracle flows into the hashed bytes (frozen exclusion by
+		// position: the recorded blinding oracle's last parameter gs, a locally derived public parameter)
 		nGroup := 0
 		for i, p := range fn.Params {
 			if !isGroupType(p.Type()) {
 				continue
 			}
 			if o.name == "randomOracleForBlindingProof" && i == len(fn.Params)-1 {
-				continue
+				if _, isSlice := p.Type().Underlying().(*types.Slice); isSlice {
+					continue
+				}
 			}
 			nGroup++
 			ok := false
-			for _, w := range writes {
-				if sl.Slice(w.Call.Args[0])[p] {
+			for _, h := range orc.hashed {
+				if sl.Slice(h)[p] {
 					ok = true
 				}
 			}
-			c.Check(ok, V1, FuncName(fn), fmt.Sprintf("operand #%d is hashed", i), m.Pos(fn.Pos()), "flows into hash.Write", fmt.Sprintf("the challenge does not depend on operand #%d (%s): the prover can choose it after seeing the challenge", i, p.Name()))
+			c.Check(ok, V1, FuncName(fn), fmt.Sprintf("operand #%d is hashed", i), m.Pos(fn.Pos()), "flows into the bytes hashed to the challenge", fmt.Sprintf("the challenge does not depend on operand #%d (%s): the prover can choose it after seeing the challenge", i, p.Name()))
 		}
-		if nGroup != len(o.params) {
+		if o.name != "" && nGroup != len(o.params) {
 			c.Bad(V1, FuncName(fn), "operand count", m.Pos(fn.Pos()), fmt.Sprintf("the oracle has %d group-element operands, the frozen table lists %d", nGroup, len(o.params)))
 		}
 		// callers: verifiers pass own fields / own parameters
@@ -571,6 +668,14 @@ func checkC09PS(c *Ctx, m *Module, sl *Slicer) {
 				if cl, ok := in.(*ssa.Call); ok {
 					if o2 := calleeObj(&cl.Call); o2 != nil && o2.Name() == "HashToZr" && sl.Slice(cl.Call.Args[len(cl.Call.Args)-1])[cs.(*ssa.Call)] {
 						e = cl
+					}
+				}
+			}
+			if e == nil {
+				// the oracle returns the challenge scalar itself
+				if cv, ok := cs.(*ssa.Call); ok {
+					if n := namedOf(cv.Type()); n != nil && n.Obj().Name() == "Zr" {
+						e = cv
 					}
 				}
 			}
